@@ -6,7 +6,8 @@
            parse_object(cfg.clone().as_dict()) returned.
    XCase : the same observations for parsers outside the modelled grammar (paths, registered and
            restricted types, dataclasses, subclass specs, the argv / string / append channels): no model,
-           the spec alone is judged; the type skeleton only decides the finding class. *)
+           the spec alone is judged; the type skeleton only decides the finding class.  XCases also carry
+           the dump leg: parse_string(dump(cfg)) and the two dumped texts. *)
 From JV Require Import Lib.Base Model.C10Adapt Model.C10Parser Spec.C10Spec.
 
 Record oracle := {
@@ -36,10 +37,26 @@ Fixpoint multi_union (t : xty) : bool :=
   | XCont _ ts => existsb multi_union ts
   end.
 
+(* a Set[...] somewhere in the type *)
+Fixpoint has_set (t : xty) : bool :=
+  match t with
+  | XLeaf _ | XNone => false
+  | XUnion ts => existsb has_set ts
+  | XCont name ts => str_eqb name [115; 101; 116]%N || existsb has_set ts
+  end.
+
+(* the dump leg fails ONLY on the byte-identical-text clause: the configuration read back is equal *)
+Definition only_text_differs (first reparsed : outcome (list val)) (text1 text2 : option str) : bool :=
+  match first, text1, text2 with
+  | Accepted w, Some _, Some _ => outcome_eqb (list_eqb veq) reparsed (Accepted w)
+  | _, _, _ => false
+  end.
+
 Inductive case :=
 | NsCase (p : parser) (obj : val) (o : oracle)
          (first : outcome (list val)) (valid : bool) (again : list (outcome (list val)))
-| XCase (sk : list xty) (first : outcome (list val)) (valid : bool) (again : list (outcome (list val))).
+| XCase (sk : list xty) (first : outcome (list val)) (valid : bool) (again : list (outcome (list val)))
+        (reparsed : outcome (list val)) (text1 text2 : option str).
 
 Definition cfg_eqb : list val -> list val -> bool := list_eqb veq.
 Definition to_outcome (r : option (list val)) : outcome (list val) :=
@@ -47,7 +64,12 @@ Definition to_outcome (r : option (list val)) : outcome (list val) :=
 
 (* class 0 = inside the guard of C10_parse_object_fixed_point;
    class 1 = some Union re-selects a member on the adapted value (finding union-reselects-member);
-   class 2 = the same situation cannot be excluded for an unmodelled type (a Union of >= 2 non-None members) *)
+   class 2 = the same situation cannot be excluded for an unmodelled type (a Union of >= 2 non-None members);
+   class 3 = validate and the object re-parse are fine but the dump leg is not, and the type has a Union of
+             >= 2 non-None members (finding union-dump-wrong-member: serialising a Union takes the first
+             member whose serialize branch does not raise, whether or not the value belongs to it);
+   class 4 = a Set[...] in the type, everything equal except the two dumped texts (finding set-dump-order:
+             a set is dumped in hash-iteration order) *)
 Definition ns_class (p : parser) (obj : val) (o : oracle) : N :=
   match flatten p [] obj with
   | Some asg => if ns_guard (jl o) (pv o) (ik o) p asg then 0%N else 1%N
@@ -69,10 +91,15 @@ Definition judge1 (c : case) : verdict :=
               end;
          v_class := ns_class p obj o;
          v_spec := fixed_point_spec cfg_eqb first valid again |}
-  | XCase sk first valid again =>
+  | XCase sk first valid again reparsed text1 text2 =>
       {| v_model := true;
-         v_class := if existsb multi_union sk then 2%N else 0%N;
-         v_spec := fixed_point_spec cfg_eqb first valid again |}
+         v_class := if existsb multi_union sk
+                    then (if fixed_point_spec cfg_eqb first valid again then 3%N else 2%N)
+                    else if existsb has_set sk && fixed_point_spec cfg_eqb first valid again
+                            && only_text_differs first reparsed text1 text2 then 4%N
+                    else 0%N;
+         v_spec := fixed_point_spec cfg_eqb first valid again
+                   && dump_spec cfg_eqb first reparsed text1 text2 |}
   end.
 
 Definition judge (cs : list case) := judge_all judge1 cs.
